@@ -45,9 +45,7 @@ theorem largeUnionCollapse_noTD (h : Hier) (ts : List Ty) (hn : ∀ x ∈ ts, x.
   split
   · next t ht => exact toTupleOf_noTD ts t hn ht
   · split
-    · split
-      · split <;> simp [Ty.hasTD]
-      · simp [Ty.hasTD]
+    · split <;> simp [Ty.hasTD]
     · simp [Ty.hasTD]
 
 theorem mscbUnion_noTD (h : Hier) (fuel : Nat) (ts : List Ty) (hn : hasTDL ts = false) : (mscbUnion h fuel ts).hasTD = false := by
